@@ -187,6 +187,8 @@ def oracle(ops, records):
         #     finding — an out-of-order rollback must still undo exactly the work since that
         #     savepoint, and nothing rolled back may ever become visible to others
         why = None
+        if o["res"].startswith("EXC:") or o["res"].startswith("OBSERVE-ERROR"):
+            return ("c23-oracle", i, "step %d (%s) let an internal error escape: %s" % (i, tok, o["res"]))
         if exp["raises"] is True and res == "ok":
             why = "op %r on an ended/blocked transaction did not raise" % tok
         elif exp["raises"] is False and res != "ok":
@@ -327,6 +329,39 @@ def gen_structured(rng, world, n):
         stack = [(a, e) for (a, e) in stack if world.handles[a].is_active or e]
 
 
+def gen_exhaustive(maxlen):
+    """all op sequences up to `maxlen` over begin / begin_nested / insert / commit / rollback and
+    commit / rollback of the first three handles (handle operands that do not exist yet are
+    skipped at run time)"""
+    import itertools
+
+    alpha = ["b", "n", "i", "C", "R", "c0", "c1", "c2", "r0", "r1", "r2"]
+    for n in range(1, maxlen + 1):
+        for seq in itertools.product(alpha, repeat=n):
+            yield seq
+
+
+def run_fixed_adaptive(seq, reset="rollback"):
+    """run a token sequence, numbering inserts and dropping ops whose handle does not exist"""
+    from harness import lib_txn
+
+    w = lib_txn.World(reset, "c23x")
+    ops, recs = [], []
+    k = 1
+    try:
+        for tok in seq:
+            if tok == "i":
+                tok = "i%d" % k
+                k += 1
+            elif tok[0] in "cr" and len(tok) > 1 and int(tok[1:]) >= len(w.handles):
+                continue
+            ops.append(tok)
+            recs.append(w.step(tok))
+    finally:
+        w.dispose()
+    return ops, recs
+
+
 def run_history(gen, rng, n, reset="rollback"):
     """drive a generator against a fresh World; -> (ops, records)"""
     from harness import lib_txn
@@ -398,7 +433,7 @@ def run(ctx, deep=False):
     ctx.rule = (
         "histories of begin/begin_nested/INSERT/DELETE/SELECT/commit/rollback/close, handle commit/rollback/close and "
         "__enter__/__exit__(ok|exc) on one Connection: 19 scripted shapes + structured well-nested programs with injected "
-        "misuse + random op soups (length <=10 quick, <=16 thorough); every op's observation record is compared with the Lean "
+        "misuse + random op soups (length <=10 quick, <=16 thorough) + in thorough ALL sequences of <=4 ops over begin/begin_nested/insert/commit/rollback/handle commit+rollback; every op's observation record is compared with the Lean "
         "model and with an independent reference model; non-trivial = uses a savepoint, a handle op or a context manager"
     )
     ctx.trusted.append("sqlite3 (autocommit=False) + SQLite SAVEPOINT semantics behind harness/lib_txn.py's DBAPI proxy (abstract DB in the model)")
@@ -421,6 +456,18 @@ def run(ctx, deep=False):
         check_history(ctx, ops, recs, cases, impl_out, reqs)
         if i % 400 == 0 and len(ops) >= 6:
             ctx.sample({"ops": ";".join(ops), "last": recs[-1]})
+    if big:
+        # exhaustive small scope: every sequence of <= 4 ops over the core alphabet
+        seen = set()
+        for seq in gen_exhaustive(4):
+            ops, recs = run_fixed_adaptive(seq)
+            sig = ";".join(ops)
+            if sig in seen or not ops:
+                continue
+            seen.add(sig)
+            check_history(ctx, ops, recs, cases, impl_out, reqs)
+        ctx.count("exhaustive<=4", len(seen))
+        ctx.exhaustive = True
     if ctx.driver_ok():
         ctx.correspond("corr/c23:Connection-vs-Model.Txn", cases, impl_out, ctx.driver(reqs))
 
